@@ -2,6 +2,7 @@ import CgtModel.Report
 import CgtModel.Props.C02
 import CgtModel.Props.C04
 import CgtModel.Props.C01
+import CgtModel.Props.C14
 /-! # C09 — securities are independent; tickers are case-insensitive
 
 Full statement: transactions in one security never change the disposals, legs, costs or holding of
